@@ -60,6 +60,7 @@ func runC06(r *fw.Run, p *fw.Program) {
 	c06Param(r, p, reach)
 	c06BufSlice(r, p, reach)
 	c06Alloc(r, p)
+	c06Bounds(r, p, reach)
 	c06Sym(r, p)
 	c06OutType(r, p)
 }
